@@ -40,7 +40,7 @@ def batch_size_of(op):
     """Batch size derived from the *data* of a named gate (None when not batched); independent of op.batch_size."""
     name = type(op).__name__
     nd_expected = {"QubitUnitary": 2, "DiagonalQubitUnitary": 1, "StatePrep": 1, "ControlledQubitUnitary": 2, "BasisState": 1,
-                   "Hermitian": 2, "StateVectorProjector": 1, "BasisStateProjector": 1, "SparseHamiltonian": 99}
+                   "Hermitian": 2, "StateVectorProjector": 1, "BasisStateProjector": 1, "SparseHamiltonian": 99, "QubitChannel": 2}
     base = getattr(op, "base", None)
     if base is not None and name not in nd_expected:
         return batch_size_of(base)
